@@ -228,3 +228,11 @@ Qed.
 
 Theorem qs_graceful_delivers : forall calls written d, qs_graceful calls = true -> qs_received calls written d = written.
 Proof. intros calls written d H. unfold qs_received. rewrite H. reflexivity. Qed.
+
+(* two joins of one name have different endpoint ids as soon as their join numbers print differently *)
+Theorem hg_endpoint_id_distinct : forall dec name j1 j2,
+  dec j1 <> dec j2 -> hg_endpoint_id dec name j1 <> hg_endpoint_id dec name j2.
+Proof.
+  intros dec name j1 j2 Hne Heq. unfold hg_endpoint_id in Heq.
+  apply app_inv_head in Heq. apply app_inv_head in Heq. contradiction.
+Qed.
